@@ -499,6 +499,23 @@ def _norm1(e, ctx):
                         not (k_ == 'name' and fn == ('name', 'Signal')))    # the debug name of a signal is not behaviour
             if tuple(a2) != args or kw2 != kwargs:
                 return ('call', fn, tuple(a2), kw2)
+        if fn in (('name', 'all'), ('name', 'any')) and len(args) == 1 and not kwargs and args[0][0] == 'gen' and len(args[0]) >= 4 and \
+                len(args[0][3]) == 1:
+            # all(f(x) for x in (a, b, c)) over a display: the conjunction of the instances (any: the disjunction)
+            tgt, it, ifs = args[0][3][0]
+            if it[0] in ('tuple', 'list') and it[1] and len(it[1]) <= 8 and not any(x[0] == 'star' for x in it[1]) and tgt[0] == 'bv':
+                parts = []
+                for val in it[1]:
+                    def inst(e_, val=val):
+                        return subst(e_, lambda x: val if x == tgt else None)
+                    body = inst(args[0][2])
+                    conds = [inst(c_) for c_ in ifs]
+                    if fn == ('name', 'all'):
+                        part = body if not conds else ('or', tuple(('un', 'not', c_) for c_ in conds) + (body,))
+                    else:
+                        part = body if not conds else ('and', tuple(conds) + (body,))
+                    parts.append(part)
+                return (('and' if fn == ('name', 'all') else 'or'), tuple(parts)) if len(parts) > 1 else parts[0]
         if fn == ('name', 'int') and len(args) == 1 and not kwargs:
             a0 = args[0]
             # int() of integer arithmetic (floor division, products, sums of widths) is that integer
@@ -593,6 +610,11 @@ def _norm1(e, ctx):
                 return ('const', False)
             if a[0] == 'const':
                 return ('const', a[1] is None)
+        if op in ('in', 'not in') and b[0] in ('set', 'list', 'tuple') and b[1] and all(x[0] == 'const' for x in b[1]):
+            # membership in a display of constants does not depend on the kind of display or the order of its elements
+            srt = ('tuple', tuple(sorted(set(b[1]), key=lambda x: (type(x[1]).__name__, repr(x[1])))))
+            if srt != b:
+                return ('cmp', op, a, srt)
         if op == 'not in' and not (b[0] == 'attr' and b[2] == 'features' and a[0] == 'enum'):
             return ('un', 'not', ('cmp', 'in', a, b))
         if op == '>':
